@@ -20,7 +20,7 @@ from .C14 import judge_merge
 ID = "C04"
 LEVEL = "model_checking"
 RULE = (
-    "bases: all tables of CT(2,2,1), CT(3,1,1), CT(1,3,1) (thorough: + CT(3,2,1), CT(2,2,2)) x matcher in {threshold IoU .5, threshold IoU lowest many-to-one, "
+    "bases: all tables of CT(2,2,1), CT(3,1,1), CT(1,3,1) (thorough: the same tables with 7 targets per dtype, + CT(3,2,1), CT(2,2,2) with maps applied to the prediction only / the reference only / both sides rotated) x matcher in {threshold IoU .5, threshold IoU lowest many-to-one, "
     "merge IoU .5} x all injective maps of each side's labels into the dtype's boundary targets (uint8: 1,2,127,254,255; uint16: 1,255,256,65534,65535; "
     "uint32/64: 1,65536,70000 (+2^24-1 thorough)) independently per side; boundary family: n_ref in {253,254,255,65534,65535} one-voxel references x 0..3 "
     "unmatched + 0..2 matched predictions, as instance maps in every dtype that holds them and as semantic maps through the approximator. "
@@ -42,12 +42,20 @@ MATCHERS = [["thr", "IOU", 0.5, False], ["thr", "IOU", "LOW", True], ["merge", "
 
 def blocks(tier):
     B = []
-    cts = [(2, 2, 1), (3, 1, 1), (1, 3, 1)] if tier == "quick" else [(2, 2, 1), (3, 1, 1), (1, 3, 1), (3, 2, 1), (2, 2, 2)]
+    cts = [(2, 2, 1), (3, 1, 1), (1, 3, 1)]
     for P, R, c in cts:
         n = sc.ct_count(P, R, c)
         for dt in sc.UDT:
-            for lo, hi in sc.ranges(n, 8 if dt in ("uint8", "uint16") else 64):
+            per = (8 if dt in ("uint8", "uint16") else 64) if tier == "quick" else (2 if dt in ("uint8", "uint16") else 16)
+            for lo, hi in sc.ranges(n, per):
                 B.append(("ct", tier, P, R, c, dt, lo, hi))
+    if tier == "thorough":
+        # larger overlap structures with the factored map family (prediction only / reference only / both sides the same targets)
+        for P, R, c in [(3, 2, 1), (2, 2, 2)]:
+            n = sc.ct_count(P, R, c)
+            for dt in ("uint8", "uint16"):
+                for lo, hi in sc.ranges(n, 8):
+                    B.append(("ct", "factored", P, R, c, dt, lo, hi))
     for nref in (253, 254, 255, 65534, 65535):
         for mode in ("instance", "semantic"):
             B.append(("bnd", nref, mode))
@@ -127,17 +135,22 @@ def run_case(case, acc):
     if not pl or not rl:
         acc.count("skipped_empty_side")
         return
-    targets = TARGETS[case.get("tier", "quick")][dt]
+    factored = case.get("tier") == "factored"
+    targets = TARGETS["quick" if factored else case.get("tier", "quick")][dt]
     pmaps = [case["pmap"]] if "pmap" in case else list(sc.injective_maps(tuple(pl), targets))
     rmaps = [case["rmap"]] if "rmap" in case else list(sc.injective_maps(tuple(rl), targets))
-    for pm in pmaps:
+    if factored and "pmap" not in case:
+        ident_p, ident_r = {l: l for l in pl}, {l: l for l in rl}
+        combos = [(pm, ident_r) for pm in pmaps] + [(ident_p, rmap) for rmap in rmaps]
+        combos += [(pm, {l: list(pm.values())[(i + 1) % len(pm)] for i, l in enumerate(rl)}) for pm in pmaps if len(pm) >= len(rl) and len(pm) > 1]
+    else:
+        combos = [(pm, rmap) for pm in pmaps for rmap in rmaps]
+    for pm, rmap in combos:
         pm = {int(k): v for k, v in pm.items()}
-        pred = sc.relabel(bp, pm, dt)
-        for rmap in rmaps:
-            rmap = {int(k): v for k, v in rmap.items()}
-            ref = sc.relabel(br, rmap, dt)
-            for m in [case["matcher"]] if "matcher" in case else MATCHERS:
-                _one(acc, {**case, "pmap": pm, "rmap": rmap, "matcher": m}, pred, ref, m)
+        rmap = {int(k): v for k, v in rmap.items()}
+        pred, ref = sc.relabel(bp, pm, dt), sc.relabel(br, rmap, dt)
+        for m in [case["matcher"]] if "matcher" in case else MATCHERS:
+            _one(acc, {**case, "pmap": pm, "rmap": rmap, "matcher": m}, pred, ref, m)
 
 
 def _one(acc, case, pred, ref, m):
